@@ -380,7 +380,9 @@ let handle (r : reader) : unit =
       let l = next_ranges r in
       let cells = next_ranges r in
       out_s "OK";
-      out_bool (canonb l && normal_cellsb q w d l cells)
+      out_bool (canonb l && normal_cellsb q w d l cells);
+      (* the decomposition as the code computes it (Model/CellsSM.v), for an exact comparison *)
+      (match moc_cells_o q w d l with Some c -> out_ranges c | None -> out_s " FUEL-EXHAUSTED")
   | "NUM" ->
       (* NUM q w n (depth idx)* -> per cell: nuniq zuniq *)
       let q = next_qty r in
